@@ -35,11 +35,29 @@ THEOREMS = [
     'CC.C11_structure',
     'CC.C11_model_lyapunov',
     'CC.C11_model_eig',
+    # flow clause (CC.Properties.C11Flow, over ℝ with Mathlib analysis)
+    'CC.C11_flow_energy_deriv',
+    'CC.C11_flow_antitone',
+    'CC.C11_flow_antitone_global',
+    'CC.C11_flow_bounded',
+    'CC.C11_flow_forced',
+    'CC.C11_flow_after_sources',
+    'CC.C11_flow_output_bounded',
+    'CC.C11_flow_exp',
+    'CC.C11_flow_of_model_lyapunov',
+    'CC.C11_model_flow',
+    'CC.C11_model_flow_nodal',
+    'CC.C11_model_bounded',
+    'CC.C11_model_output_bounded',
+    'CC.C11_model_flow_exp',
 ]
-OPEN_STATEMENTS = ['not formalised: the FLOW clause — along exp(tA) the stored energy cannot grow, simulated responses stay bounded, the stored energy is non-increasing after all sources have returned to zero; only the rate form (C11_energy_rate + C11_model_lyapunov) is proved; oracle only (sampled-energy stream)']
+LEAN_MODULE_EXTRA = ['CC.Properties.C11Flow']
+OPEN_STATEMENTS = ['not formalised: that the SIMULATED samples follow the flow — the flow clause is proved for exact solutions of ẋ = A x + B u(t) with the model\'s A, B over ℝ (C11_model_flow, C11_model_bounded, C11_model_flow_exp: stored energy antitone and states / outputs bounded on every interval on which all sources are zero); scipy.signal.lsim (zero-order/first-order hold discretisation, numerical exp(A·Δt), the sampling grid and the interpolation of the input between samples in TransientSolution) and binary64 rounding are not modelled, so the sampled-energy clause on the implementation stays oracle only',
+                   'not composed: the output bound C11_model_output_bounded is for the rows of the model\'s C matrix (all nodal unknowns y = C x + D u); the reported potentials / voltages / currents are functions of y and ẋ by C10_output_rows (CC.Properties.C10Rows), but a bound stated for the c_row_* / d_row_* accessors themselves is not derived']
 ASSUMPTIONS = [
     'C11_model_lyapunov / C11_model_eig are proved for the executable model (every RLC network without negative conductances, any certificates); the exact definiteness oracle checks the same inequality on the implementation\'s A on every run',
-    'scipy.signal.lsim reproduces exp(A·Δt) (sampled-energy clause only)',
+    'scipy.signal.lsim reproduces exp(A·Δt) (sampled-energy clause only); the flow theorems (C11_flow_*, C11_model_flow*) speak about exact solutions of the differential equation over ℝ, not about lsim',
+    'C11_model_flow / C11_model_bounded / C11_model_flow_exp instantiate the model at K := ℝ (the model is generic over the field; the driver and the correspondence run it over exact rationals)',
     'binary64 rounding of A enters the exact evaluation of W·A + Aᵀ·W; a tolerance of 1e-9·max|P| absorbs it on the well-conditioned instances generated',
 ]
 
